@@ -130,6 +130,9 @@ func countCase(run *common.Run, r resultT, cls string) {
 		run.Hit("retain:" + c.Mode)
 		run.Hit("retain-via:" + c.Via)
 		run.Hit("retain-caller:" + c.Caller)
+		if c.AfterCancel {
+			run.Hit("retain-after-cancelled-evaluation:" + c.Via)
+		}
 		if c.Mode == "reenter" {
 			run.Hit(fmt.Sprintf("retain-depth:%d", c.Depth))
 		}
